@@ -270,11 +270,45 @@ def mesh_options_stream(ctx, n):
         ctx.traces_validated += 1
 
 
+def options_agreement_stream(ctx, n):
+    """every scenario of the file-mode check C04 (edited csv / .vtu pairs under random tolerance, field-filter, ignore and mesh
+    options) put into two directories under one file name: `fieldcompare dir` with the same options must give the exit status
+    `fieldcompare file` gives for the pair"""
+    from . import c04
+    scs = c04.gen_scenarios(ctx.rng, n)
+    for i, sc in enumerate(scs):
+        if sc["res_state"] in ("missing", "badext") or sc["ref_state"] in ("missing", "badext"):
+            continue            # (a missing / differently named file is a different directory-mode scenario: categorisation stream)
+        root = os.path.join(str(ctx.workdir), f"oa{i}")
+        A, B = os.path.join(root, "A"), os.path.join(root, "B")
+        os.makedirs(A)
+        os.makedirs(B)
+        res = c04.write_side(os.path.join(A, "data"), sc["kind"], sc["res"], sc["res_state"], i * 2 + 1)
+        ref = c04.write_side(os.path.join(B, "data"), sc["kind"], sc["ref"], sc["ref_state"], i * 2 + 2)
+        fargv = c04.argv_for(sc, res, ref)
+        dargv = ["dir", A, B] + fargv[3:]
+        rc = {}
+        for mode, argv in (("file", fargv), ("dir", dargv)):
+            with warnings.catch_warnings():
+                warnings.simplefilter("ignore")
+                code, _, exc = run_cli(argv)
+            rc[mode] = f"escaped: {exc}" if exc else code
+        shutil.rmtree(root, ignore_errors=True)
+        c = {"options_agreement": c04.canon(sc)}
+        ctx.case(c, bool(sc["edits"]), sample={"options": sc["opts"], "edits": sc["edits"], "exit": rc})
+        ctx.count("options agreement:" + sc["kind"])
+        ctx.tie("T2 dir mode = file mode for one pair under the same options")
+        if rc["file"] != rc["dir"] and not (isinstance(rc["file"], int) and isinstance(rc["dir"], int) and (rc["file"] != 0) == (rc["dir"] != 0)):
+            ctx.violation("E4", f"directory mode exits {rc['dir']} where file mode exits {rc['file']} for the same pair and options", c)
+        ctx.traces_validated += 1
+
+
 def run(ctx):
     ctx.prove()
     n = 350 if ctx.tier == "quick" else 8000
     rng = ctx.rng
     mesh_options_stream(ctx, 24 if ctx.tier == "quick" else 600)
+    options_agreement_stream(ctx, 150 if ctx.tier == "quick" else 4000)
     cases = [gen(rng) for _ in range(n)]
     impls = [run_impl(sc, str(ctx.workdir), i) for i, sc in enumerate(cases)]
     pairs = [model_expr(sc, im) for sc, im in zip(cases, impls)]
